@@ -329,6 +329,35 @@ int main(int argc, char **argv)
 				v_nontrivial(v_mix(ii + 2000, k));
 			}
 		}
+		/* (e) sparse sources (a small-write delta): all zero except one window of 1 / 8 / 24 / 32 / 64 non-zero bytes at EVERY offset;
+		 * a kernel may not take a "nothing to do" shortcut on anything less than a truly all-zero vector */
+		{
+			static uint8_t SP[NMAX];
+			static const int sl[] = { 64, 96, 128, 192, 256, 300 }, sw[] = { 1, 8, 24, 32, 64 };
+			ec_coeffs(A, RMAX * 3, 5);
+			for (int li = 0; li < 6; li++) {
+				if (!v_mine(unit++))
+					continue;
+				if (v_deadline_hit() || nfail > 60)
+					goto out;
+				int len = sl[li];
+				if (len < im->minlen || len > N)
+					continue;
+				uint8_t *keep = M[1];
+				M[1] = SP;
+				for (int wi = 0; wi < 5; wi++)
+					for (int q = 0; q + sw[wi] <= len; q++) {
+						memset(SP, 0, len);
+						for (int j = 0; j < sw[wi]; j++)
+							SP[q + j] = (uint8_t)(1 + (q * 7 + j * 13) % 255);
+						int one[1] = { 1 };
+						run_history(im, len, 3, w, one, 1, 1, -1, -1, "e:sparse-source");
+						v_count("sparse_source_cases", 1);
+					}
+				M[1] = keep;
+				v_nontrivial(v_mix(ii + 3000, len));
+			}
+		}
 		/* (d) rows 1..13 for the high-level functions */
 		if (!im->width)
 			for (int rows = 1; rows <= RMAX; rows++)
